@@ -460,6 +460,9 @@ def build(S: Sources, tier="quick") -> Unit:
     for n, tier in [(1, "experimental"), (2, "experimental")]:
         hs.append(KaniHarness(f"verif_c05::attr_n{n}_s2", "bounded", bound=f"exactly {n} samples in a symbolic order, concrete distinct tallies and counter values, sample_size 2 (> 20 min each)",
                               covers="BenchContext::compute_stats (allocation and per-input counter figures belong to the samples that supplied the time)", tier=tier))
+    # the published sample size (the divisor of every per-iteration figure) is the recorded samples' size: the loop unit with C05's tags
+    from units import loop_common as L
+    vfiles = vfiles + guarded(lambda: [f for f in L.loop_files(S, "c05", L.TAGS["C05"], False, errs) if f.name in ("c05_loop", "c05_canary_final_bench")], errs, [])
     shim = guarded(lambda: store_shim(S), errs, None)
     if shim is not None:
         hs.append(KaniHarness("verif_c05_store::samples_stored_under_their_own_index", "bounded", bound="two rounds of two threads; at most one sample without allocations",
